@@ -79,12 +79,17 @@ def replay_chunk(args):
         prog, inc = beh["prog"], beh["inc"]
         # consecutive runs in one process use different strip patterns (anything cached between runs shows)
         agg.PREFIX = ["_p_", "_q_", "arg_"][n % 3]
-        via_main = pid == "C03" and n % 5 == 0
-        if via_main:
+        agg.GENERIC_PATTERN = (n // 3) % 2 == 1
+        via_main = pid in ("C03", "C09") and n % 5 == 0
+        if via_main and pid == "C03":
             # every fifth program takes the command-line route with the settings in a -s file and a trigger string of
             # two words; doccomments without the trigger carry a line that shares its first word
             src, meta = agg.concretize(prog, cmds, seed * 1000003 + n, trigger=agg.TRIGGER_2W, decoy=":param zz: not the trigger")
             status, text, _, err = agg.run_via_main(src, inc, pats, agg.TRIGGER_2W)
+        elif via_main:
+            # (C09: the member strip pattern arrives through the settings file)
+            src, meta = agg.concretize(prog, cmds, seed * 1000003 + n)
+            status, text, _, err = agg.run_via_main(src, inc, pats, agg.TRIGGER)
         else:
             src, meta = agg.concretize(prog, cmds, seed * 1000003 + n)
             settings = agg.make_settings(inc, pats)
@@ -238,6 +243,9 @@ def c04_chunk(args):
             # the line ending between ')' and the next command's name replaced by one space (the tokens stay the same)
             import re as _re
             variants.append(("joined", _re.sub(r"\)\n(?=[A-Za-z_])", ") ", base)))
+            # a doccomment that begins on the line of the previous command, or behind a bracket comment: same tokens
+            variants.append(("doc-joined", _re.sub(r"\)\n(?=#\[\[\[)", ") ", base)))
+            variants.append(("doc-behind-comment", _re.sub(r"(?m)^(#\[\[\[)", r"#[[ c ]]   \1", base)))
             for vname, src in variants:
                 st, page, _, _ = agg.run_real(src, settings)
                 if st != "ok":
